@@ -20,6 +20,23 @@ import time as _real_time
 from typing import Any, Callable, List, Optional
 
 
+class _Baton:
+    """Binary hand-off primitive on a raw lock (one futex operation per hand-off;
+    threading.Semaphore is a Python-level Condition and far slower under load)."""
+
+    __slots__ = ("_lock",)
+
+    def __init__(self) -> None:
+        self._lock = _real_threading.Lock()
+        self._lock.acquire()
+
+    def release(self) -> None:
+        self._lock.release()
+
+    def acquire(self) -> None:
+        self._lock.acquire()
+
+
 class ThreadExit(BaseException):
     """Raised inside a virtual thread to unwind it at shutdown."""
 
@@ -30,7 +47,7 @@ class VThread:
         self.target = target
         self.name = name
         self.is_main = is_main
-        self.sem = _real_threading.Semaphore(0)
+        self.sem = _Baton()
         self.state = "running" if is_main else "new"  # new|runnable|blocked|sleeping|done|running
         self.wait_event: Optional["ShimEvent"] = None
         self.deadline: Optional[float] = None
@@ -39,6 +56,9 @@ class VThread:
         self.exc: Optional[BaseException] = None
         self.real: Optional[_real_threading.Thread] = None
         self.seq = 0
+        # polling sleepers: woken only after something else changed ("dirty")
+        self.dirty = False
+        self.interval: Optional[float] = None
 
     def __repr__(self) -> str:
         return f"VThread({self.name},{self.state},deadline={self.deadline})"
@@ -134,6 +154,8 @@ class Sched:
             return
         me.state = "sleeping"
         me.deadline = self.now + seconds
+        me.interval = seconds
+        me.dirty = False  # it has just looked at the world
         self._yield_to_main()
         me.state = "running"
         me.deadline = None
@@ -147,7 +169,12 @@ class Sched:
         deadline (timeout may elapse) or blocked on an event that is set."""
         out = []
         for t in self.live():
-            if t.state in ("runnable", "sleeping"):
+            if t.state == "sleeping":
+                # pure polling loops: a poll during which nothing else changed
+                # sees what the previous poll saw, so it is skipped (stutter)
+                if t.dirty:
+                    out.append(t)
+            elif t.state == "runnable":
                 out.append(t)
             elif t.state == "blocked":
                 if t.wait_event is not None and t.wait_event._flag:
@@ -156,6 +183,20 @@ class Sched:
                     out.append(t)
         out.sort(key=lambda t: (t.deadline if t.deadline is not None and not (t.wait_event and t.wait_event._flag) else self.now, t.seq))
         return out
+
+    def touch(self, but: Optional[VThread] = None) -> None:
+        """Something observable happened: polling sleepers must look again.
+        A sleeper whose polls were skipped resumes at its first poll instant
+        that is not in the past."""
+        for t in self.threads:
+            if t is but or t.state != "sleeping":
+                continue
+            t.dirty = True
+            if t.deadline is not None and t.interval and t.deadline < self.now:
+                import math
+
+                k = math.ceil((self.now - t.deadline) / t.interval - 1e-12)
+                t.deadline = t.deadline + k * t.interval
 
     def run(self, vt: VThread) -> None:
         """Let vt proceed until it blocks again or ends (cooperative step)."""
@@ -177,6 +218,7 @@ class Sched:
         vt.sem.release()
         self.main.sem.acquire()
         self.current = self.main
+        self.touch(but=vt)
 
     def run_all(self, max_steps: int = 2000, until: Optional[float] = None) -> int:
         """Default schedule: repeatedly run the earliest enabled thread."""
